@@ -72,6 +72,8 @@ struct Shared {
     node_drops: Mutex<Vec<usize>>,
     /// live message instances of this case
     live: Live,
+    /// microseconds every handler spends working (makes work stealing happen)
+    work_us: std::sync::atomic::AtomicU64,
 }
 
 #[derive(Clone, Debug)]
@@ -166,6 +168,10 @@ impl Node {
         }
     }
     fn fault(&self, p: u128) {
+        let w = self.sh.work_us.load(Ordering::Relaxed);
+        if w > 0 {
+            std::thread::sleep(std::time::Duration::from_micros(w));
+        }
         if self.panic_on == Some(p) && self.id % 2 == 0 {
             self.leave();
             panic!("boom {p}");
@@ -798,6 +804,9 @@ impl Engine for Net {
         let mut fatal_seen = false;
         let mut dropped = false;
         let mut timeout_seen = false;
+        for pt in 0..8 {
+            nexosim::verif_hooks::set_protocol_delay(pt, 0);
+        }
         let base_threads = thread_count();
         for l in lines {
             let w: Vec<&str> = l.split_whitespace().collect();
@@ -974,6 +983,16 @@ impl Engine for Net {
                     out.nontrivial = true;
                     out.tags.push(format!("wide.{}", if n > 128 { "over-one-bucket" } else { "small" }));
                     r
+                }
+                ["work", us] => {
+                    sh.work_us.store(us.parse().unwrap(), Ordering::Relaxed);
+                    "ok".into()
+                }
+                ["delay", pt, us] => {
+                    // schedule perturbation: sleep at a protocol point of the multi-threaded executor
+                    nexosim::verif_hooks::set_protocol_delay(pt.parse().unwrap(), us.parse().unwrap());
+                    out.tags.push(format!("delay.point{pt}"));
+                    "ok".into()
                 }
                 ["nested", k, j] => {
                     let (k, j): (usize, usize) = (k.parse().unwrap(), j.parse().unwrap());
@@ -1458,6 +1477,12 @@ fn gen_case(rng: &mut Rng, _idx: usize, tier: Tier, focus: &str) -> Case {
     }
     lines.extend(stall_line);
     lines.extend(fault_lines);
+    // schedule perturbation on the multi-threaded executor: handlers that take some time (so that work is stolen) and a
+    // sleep at one protocol point of the pool (worker deactivation, idle detection, task scheduling)
+    if exec != "st" && fault_kind == 0 && rng.chance(1, if focus == "C04" || focus == "C06" { 3 } else { 8 }) {
+        lines.push(format!("work {}", rng.range(50, 400)));
+        lines.push(format!("delay {} {}", rng.below(6), rng.range(1000, 12000)));
+    }
     lines.push("init".into());
     let ncmd = rng.range(1, 5);
     for c in 0..ncmd {
